@@ -233,7 +233,7 @@ def oracle_history(steps):
             if name in ('scale', 'scaled', 'mat') and src['sys'] == 'c' and src['kind'] == 'sep' and src['w'] is None and src['getw'][0] == 'err':
                 allowed = True          # automatic weights undefined (axis with fewer than two points)
             if not allowed:
-                bad.append(('op-raises %s %s %s' % (name, status[4:], src['kind'] if src else '-'),
+                bad.append(('op-raises %s%s' % (base(name), arg_class(op)),
                             '%s%s raised %s on a %s %s grid' % (name, arg_class(op), status[4:], src['sys'], src['kind'])))
             if len(after) != len(before) or any(not same_snap(a, b) for a, b in zip(after, before)):
                 bad.append(('failed-op-side-effect', 'a failed %s changed a live grid' % name))
@@ -278,14 +278,14 @@ def oracle_history(steps):
         else:
             raise MachineryError(name)
         if not close_arr(new['points'], wantP):
-            bad.append(('points %s %s' % (base(name), src['kind']), 'points after %s%s of a %s %s grid are not the images of the points' % (
+            bad.append(('points %s' % base(name), 'points after %s%s of a %s %s grid are not the images of the points' % (
                 name, arg_class(op), src['sys'], src['kind'])))
         if wantW is not None:
             if new['wl'] is None:
-                bad.append(('weights %s %s' % (base(name), src['kind']), 'weights cannot be read after %s' % name))
+                bad.append(('weights %s unreadable' % base(name), 'weights cannot be read after %s' % name))
             elif not close_arr(new['wl'], wantW):
                 hist = 'cached' if src['w'] is not None else 'uncached'
-                bad.append(('weights %s %s %s' % (base(name), src['kind'], hist), 'weights after %s%s of a %s %s grid (%s weights) are %s, expected %s' % (
+                bad.append(('weights %s %s' % (base(name), hist), 'weights after %s%s of a %s %s grid (%s weights) are %s, expected %s' % (
                     name, arg_class(op), src['sys'], src['kind'], hist, np.round(new['wl'][:6], 6).tolist(), np.round(wantW[:6], 6).tolist())))
     out, seen = [], set()
     for k, w in bad:
@@ -584,8 +584,8 @@ def run(ctx):
                         'automatic weights of a separated axis with fewer than two points are undefined (IndexError) — outside the quantifier',
                         'weights under rotation are not part of the statement (rotated() drops them, rotate() keeps the cached value): recorded, not judged',
                         'make_fft_grid float truncation is taken as given when the exact value is within 1e-6 of an integer and fov is inexact (boundary_skipped)']
-    n_hist = ctx.scale(260, 4000)
-    n_ctor = ctx.scale(160, 2500)
+    n_hist = ctx.scale(1800, 13000)
+    n_ctor = ctx.scale(1000, 7000)
     cases = list(DIRECTED)
     for k in range(n_hist):
         cases.append(gen_history(ctx.rng, big=(ctx.tier == 'thorough' and k % 4 == 0)))
